@@ -227,17 +227,20 @@ Fixpoint esc (s : bytes) : bytes :=
 
 Definition SEP : bytes := [44%N; 32%N].     (* ", " *)
 
+(* ", ".join(...) *)
+Definition pr_items (pl : label -> bytes) : list label -> bytes :=
+  fix go (ls : list label) : bytes :=
+    match ls with
+    | [] => []
+    | [x] => pl x
+    | x :: r => pl x ++ SEP ++ go r
+    end.
+
 Fixpoint pr_label (l : label) : bytes :=
   match l with
   | LInt z => pr_Z z
   | LStr s => 34%N :: esc s ++ [34%N]
-  | LTup ls =>
-      91%N :: (fix items (ls : list label) : bytes :=
-                 match ls with
-                 | [] => []
-                 | [x] => pr_label x
-                 | x :: r => pr_label x ++ SEP ++ items r
-                 end) ls ++ [93%N]
+  | LTup ls => 91%N :: pr_items pr_label ls ++ [93%N]
   end.
 
 Definition pr_labels (ls : list label) : bytes := pr_label (LTup ls).
@@ -257,16 +260,33 @@ Fixpoint p_str (bs : bytes) (acc : bytes) : res (bytes * bytes) :=
       else p_str r (c :: acc)
   end.
 
+Definition p_int_digits (neg : bool) (bs : bytes) : res (label * bytes) :=
+  match p_uint bs with
+  | (Nil, _) => Err
+  | (u, r') => Ok (LInt (if neg then Z.opp (Z.of_N (N.of_uint u)) else Z.of_N (N.of_uint u)), r')
+  end.
+
 Definition p_int (bs : bytes) : res (label * bytes) :=
   match bs with
-  | 45%N :: r => match p_uint r with
-                 | (Nil, _) => Err
-                 | (u, r') => Ok (LInt (Z.opp (Z.of_N (N.of_uint u))), r')
-                 end
-  | _ => match p_uint bs with
-         | (Nil, _) => Err
-         | (u, r') => Ok (LInt (Z.of_N (N.of_uint u)), r')
-         end
+  | b :: r => if N.eqb b 45 then p_int_digits true r else p_int_digits false bs
+  | [] => Err
+  end.
+
+(* the items of a non-empty array after the opening bracket; `pl` parses one element; g is fuel for the loop *)
+Fixpoint p_items (pl : bytes -> res (label * bytes)) (g : nat) (bs : bytes) (acc : list label)
+  : res (label * bytes) :=
+  match g with
+  | 0 => Err
+  | S g' =>
+      match pl bs with
+      | Err => Err
+      | Ok (x, r1) =>
+          match r1 with
+          | 44%N :: 32%N :: r2 => p_items pl g' r2 (x :: acc)
+          | 93%N :: r2 => Ok (LTup (List.rev (x :: acc)), r2)
+          | _ => Err
+          end
+      end
   end.
 
 Fixpoint p_label (fuel : nat) (bs : bytes) : res (label * bytes) :=
@@ -274,24 +294,15 @@ Fixpoint p_label (fuel : nat) (bs : bytes) : res (label * bytes) :=
   | 0 => Err
   | S f =>
       match bs with
-      | 34%N :: r => match p_str r [] with Ok (s, r') => Ok (LStr s, r') | Err => Err end
-      | 91%N :: 93%N :: r => Ok (LTup [], r)
-      | 91%N :: r =>
-          (fix items (g : nat) (bs : bytes) (acc : list label) : res (label * bytes) :=
-             match g with
-             | 0 => Err
-             | S g' =>
-                 match p_label f bs with
-                 | Err => Err
-                 | Ok (x, r1) =>
-                     match r1 with
-                     | 44%N :: 32%N :: r2 => items g' r2 (x :: acc)
-                     | 93%N :: r2 => Ok (LTup (List.rev (x :: acc)), r2)
-                     | _ => Err
-                     end
-                 end
-             end) (length r) r []
-      | _ => p_int bs
+      | [] => Err
+      | b :: r =>
+          if N.eqb b 34 then match p_str r [] with Ok (s, r') => Ok (LStr s, r') | Err => Err end
+          else if N.eqb b 91 then
+            match r with
+            | c :: r' => if N.eqb c 93 then Ok (LTup [], r') else p_items (p_label f) (length r) r []
+            | [] => Err
+            end
+          else p_int bs
       end
   end.
 
